@@ -77,9 +77,9 @@ var frameRe = regexp.MustCompile(`\n  (\S+)\(`)
 func runC14(args []string) {
 	r := core.NewRun("C14", "exploration")
 	r.Rule = "three schema trees on disk (one large file with >= 6-field messages/unions, tags and opcodes; the same with 4 imported files in combined mode; the same with go_package consts in separate mode using types of 3 imported packages) are parsed once in a -race build of the front-end worker; " +
-		"ReadFile, Validate, Format and Generate under 6 option sets are called 5x sequentially and then from 8 goroutines x 20 repetitions sharing the one File value, in 3 fresh processes each (results are recorded per goroutine and merged after the join, so the monitor adds no ordering between calls; the last process of every tree runs barrier-aligned: all goroutines start the same operation together; each process walks the Generate option sets in a different rotation, so a value remembered from the first call of a process shows as a difference across processes). " +
+		"ReadFile, Validate, Format and Generate under 6 option sets are called 5x sequentially and then from 8 goroutines x 20 repetitions sharing the one File value, in 3 fresh processes each (results are recorded per goroutine and merged after the join, so the monitor adds no ordering between calls; the last process of every tree runs barrier-aligned: all goroutines start the same operation together; each process walks the Generate option sets in a different rotation, odd processes backwards, so a value remembered from the first call of a process shows as a difference across processes). " +
 		"Further trees with fewer repetitions: the extremes family, seeded random schemas, and a COLD tree in which 30 malformed/unusual texts go through ReadFile and Format from 8 goroutines with no sequential phase first. " +
-		"Oracle: every call of the same operation returns byte-identical output and the same error nil-ness within and across processes; the File (exported fields, deep) is unchanged; zero 'WARNING: DATA RACE' blocks in the race logs. " +
+		"Oracle: every call of the same operation returns byte-identical output and the same error nil-ness within and across processes; the File (exported fields, deep, and four spare slots behind every slice the worker gives it) is unchanged; zero 'WARNING: DATA RACE' blocks in the race logs. " +
 		"The evidence counts call pairs that really overlapped in time; fewer than 100 overlapping pairs makes the race clause inconclusive. distinct_nontrivial = distinct (tree, operation, process) triples."
 	r.Assume = []string{"Go race detector (happens-before): a race is reported when both accesses are executed, whatever the timing", "error text is not compared (the suite documents that the import-cycle text depends on map order)"}
 	bin, err := buildWorker("feworker", "-race")
@@ -157,7 +157,7 @@ func runC14(args []string) {
 			procs, G, R, seq, texts = 4, 8, 3, 0, coldTexts
 		}
 		var settings []map[string]any
-		for _, o := range []Opts{{}, {Tags: true}, {Private: true, Pointers: true}, {Unsafe: true, Shared: true}, {Tags: true, Unsafe: true, Pointers: true}, {Private: true, Tags: true}} {
+		for _, o := range []Opts{{}, {Shared: true}, {Private: true, Pointers: true}, {Unsafe: true, Shared: true}, {Tags: true, Unsafe: true, Pointers: true}, {Private: true, Tags: true}} {
 			st := o.settings("pkg")
 			st["combined"] = tr.combined
 			settings = append(settings, st)
@@ -188,7 +188,7 @@ func runC14(args []string) {
 				ReadErr  string            `json:"read_err"`
 				HarnessE string            `json:"harness_error"`
 			}
-			outcome, stderr := feOne(ch, map[string]any{"op": "purity", "path": tr.path, "settings_list": settings, "seq": seq, "g": G, "r": R, "texts": texts, "aligned": ti == coldFrom || p == procs-1, "rot": []int{0, 3, 1, 4, 2, 5}[p%6]}, &out)
+			outcome, stderr := feOne(ch, map[string]any{"op": "purity", "path": tr.path, "settings_list": settings, "seq": seq, "g": G, "r": R, "texts": texts, "aligned": ti == coldFrom || p == procs-1, "rot": []int{0, 3, 1, 4, 2, 5}[p%6], "reverse": p%2 == 1}, &out)
 			ch.Close()
 			loc := map[string]string{"tree": tr.name}
 			if strings.HasPrefix(outcome, "cpu-budget") || strings.HasPrefix(outcome, "wall") {
